@@ -270,6 +270,22 @@ func mergeShape(a, b *Shape) *Shape {
 	return r
 }
 
+// allStructs lists the struct shapes below (and including) s
+func (s *Shape) allStructs() []*Shape {
+	if s == nil {
+		return nil
+	}
+	var out []*Shape
+	if s.T == tSTRUCT {
+		out = append(out, s)
+		for _, f := range s.Fields {
+			out = append(out, f.allStructs()...)
+		}
+	}
+	out = append(out, s.Elem.allStructs()...)
+	return append(out, s.Key.allStructs()...)
+}
+
 func (s *Shape) hasConflict() bool {
 	if s == nil {
 		return false
@@ -293,6 +309,24 @@ type idlGen struct {
 	sb    strings.Builder
 	n     int
 	extra map[*Shape][]uint16 // extra declared-but-absent field ids per struct shape
+	anno  bool                // annotate fields by id: value mapping (api.js_conv) and response HTTP mapping (api.header / api.cookie)
+}
+
+func (g *idlGen) annoOf(id int, s *Shape) string {
+	if !g.anno {
+		return ""
+	}
+	switch id % 4 {
+	case 0:
+		if s != nil && (s.T == tI8 || s.T == tI16 || s.T == tI32 || s.T == tI64 || s.T == tDBL || s.T == tSTR) {
+			return ` (api.js_conv = "")`
+		}
+	case 1:
+		return fmt.Sprintf(` (api.header = "X-F%d")`, id)
+	case 2:
+		return fmt.Sprintf(` (api.cookie = "c%d")`, id)
+	}
+	return ""
 }
 
 func (g *idlGen) typeName(s *Shape) string {
@@ -339,7 +373,7 @@ func (g *idlGen) structName(s *Shape) string {
 	sort.Ints(ids)
 	var body strings.Builder
 	for _, id := range ids {
-		fmt.Fprintf(&body, "  %d: optional %s f%d\n", id, g.typeName(s.Fields[uint16(id)]), id)
+		fmt.Fprintf(&body, "  %d: optional %s f%d%s\n", id, g.typeName(s.Fields[uint16(id)]), id, g.annoOf(id, s.Fields[uint16(id)]))
 	}
 	for _, id := range g.extra[s] {
 		if _, ok := s.Fields[id]; !ok {
